@@ -24,19 +24,6 @@ Definition c01_op (o : op) : bool :=
   | _ => false
   end.
 
-(** lines written directly to the terminal by the closure passed to suspend are non-empty: an
-    EMPTY line written by foreign code while the cursor is wrap-pending at the right edge only
-    resolves the pending wrap (terminal semantics, TermProofs.line_spec_edge_empty) - indicatif
-    has no say in that; its own empty lines (println "") are padded and covered *)
-Definition suspend_ok (o : op) : bool :=
-  match o with
-  | OSuspend _ ws => forallb (fun w => match w with [] => false | _ => true end) ws
-  | _ => true
-  end.
-
-Definition hist_ok (h : list (N * op)) : Prop :=
-  Forall (fun x => c01_op (snd x) = true /\ suspend_ok (snd x) = true) h.
-
 (* ------------------------------------------------------------------ ghost state *)
 (** what println prints: msg.lines(), one empty line for an empty message *)
 Definition println_lines (m : text) : list text :=
@@ -53,12 +40,58 @@ Definition op_log (o : op) : list text :=
 (** [g_log]: the lines given to println + the lines written by suspend closures so far, in order;
     [g_frame]: frame_of (bar state at the LAST PAINTED draw) - [] when nothing was painted yet,
     [] after finish_and_clear.  A draw was painted iff the op emitted TermLike calls. *)
-Record ghost := mkg { g_log : list text; g_frame : list line }.
-Definition ghost0 : ghost := mkg [] [].
+(** [g_edge]: the last call so far that wrote to the terminal was a write_str (so the cursor may be
+    wrap-pending at the right edge); false = it was a write_line or clear_line, or nothing has been
+    written since a start at column 0: the cursor is at column 0.  A function of the emitted calls. *)
+Record ghost := mkg { g_log : list text; g_frame : list line; g_edge : bool }.
+Definition ghost0 : ghost := mkg [] [] false.
+(** the ghost at the start: only "does the cursor start at column 0" is read off the terminal *)
+Definition ghost_for (t0 : term) : ghost := mkg [] [] (negb (Nat.eqb (t_col t0) 0)).
+
+Definition is_write (o : termop) : bool :=
+  match o with TStr _ | TLine _ | TClear => true | _ => false end.
+Fixpoint last_write (e : list termop) (acc : option termop) : option termop :=
+  match e with
+  | [] => acc
+  | o :: r => last_write r (if is_write o then Some o else acc)
+  end.
 
 Definition gstep (s' : sys) (e : list termop) (o : op) (g : ghost) : ghost :=
   mkg (g_log g ++ op_log o)
-      (match e with [] => g_frame g | _ => frame_of (get_bar s' 0) end).
+      (match e with [] => g_frame g | _ => frame_of (get_bar s' 0) end)
+      (match last_write e None with
+       | Some (TStr _) => true
+       | Some _ => false
+       | None => g_edge g
+       end).
+
+(** The one situation excluded from C01 (open finding 'empty-line-after-text-only-draw-swallowed',
+    Theorem C01_empty_line_swallowed_refuted): the closure passed to suspend writes an EMPTY FIRST
+    line while no frame is on the screen (last_line_count = 0) and the last thing written was a
+    write_str, i.e. the preceding draw painted text lines only and left the cursor wrap-pending at
+    the right edge: the empty line then only resolves the pending wrap and gets no row of its own.
+    Every other closure output (empty lines after the first, an empty first line while a frame is
+    visible or after a clear/newline) is covered. *)
+Definition suspend_okb (g : ghost) (n : N) (o : op) : bool :=
+  match o with
+  | OSuspend _ ([] :: _) => (0 <? n) || negb (g_edge g)
+  | _ => true
+  end.
+
+(** last_line_count of bar 0's terminal target *)
+Definition bar_n (s : sys) : N := target_n (b_target (get_bar s 0)).
+
+(** histories over the C01 alphabet none of whose suspend calls is in the excluded situation *)
+Fixpoint hist_okb (W H : N) (s : sys) (g : ghost) (h : list (N * op)) : bool :=
+  match h with
+  | [] => true
+  | x :: r =>
+      c01_op (snd x) && suspend_okb g (bar_n s) (snd x)
+      && (let '(s', e, _) := step W H nofail s (fst x) (snd x) in
+          hist_okb W H s' (gstep s' e (snd x) g) r)
+  end.
+Definition hist_ok (W H : N) (s : sys) (g : ghost) (h : list (N * op)) : Prop :=
+  hist_okb W H s g h = true.
 
 (* ------------------------------------------------------------------ running a history *)
 Definition sb_step (W H : N) (st : sys * ghost * term) (x : N * op) : sys * ghost * term :=
